@@ -214,6 +214,11 @@ class ExprGen(BlockGen):
     def __init__(self, rng, **kw):
         super().__init__(rng, rich_exprs=True, **kw)
         self.labels = 0
+        self.bitops = []
+        self.cmp_values = True
+        self.count_jmp = True
+        self.use_ds = False
+        self.in_ds = False
 
     def int_expr(self, depth=0):
         r = self.rng.random()
@@ -224,8 +229,14 @@ class ExprGen(BlockGen):
             if op in ("/", "%"):     # run-time division by zero is not decided: divide by non-zero constants only
                 return binop(op, self.int_expr(depth + 1), ilit(self.rng.choice([1, 2, 3, -1, -2])))
             return binop(op, self.int_expr(depth + 1), self.int_expr(depth + 1))
-        if r < 0.68:
+        if r < 0.64:
             return unop("-", self.int_expr(depth + 1))
+        if r < 0.68 and self.bitops:
+            k = self.rng.random()
+            if k < 0.6:
+                return binop(self.rng.choice(self.bitops), self.int_expr(depth + 1),
+                             self.int_expr(depth + 1) if self.rng.random() < 0.5 else ilit(self.rng.choice([1, 2, 31, 33, -1])))
+            return unop(self.rng.choice(["~", "!"]), self.int_expr(depth + 1))
         if r < 0.76 and self.floats:
             return self.rng.choice([var(self.rng.choice(self.floats), "$"), unop("int", self.float_expr(depth + 1)),
                                     unop("$", self.float_expr(depth + 1))])
@@ -233,9 +244,12 @@ class ExprGen(BlockGen):
             return {"k": "tern", "c": self.cond_expr(depth + 1), "a": self.int_expr(depth + 1), "b": self.int_expr(depth + 1)}
         if r < 0.9 and self.cmp_values:
             return binop(self.rng.choice(["==", "!=", "<", "<=", ">", ">="]), self.int_expr(depth + 1), self.int_expr(depth + 1))
-        if r < 0.96 and self.use_ds:
+        if r < 0.96 and self.use_ds and not self.in_ds:
+            # (no switch inside a switch: nested switches are C14's business — and a known finding there)
             n = self.rng.choice([2, 3, 4])
+            self.in_ds = True
             cases = [self.int_expr(depth + 2)] + [self.int_expr(depth + 2) if self.rng.random() < 0.7 else {"k": "hole"} for _ in range(n - 1)]
+            self.in_ds = False
             return {"k": "ds", "cases": cases}
         return self.int_atom()
 
@@ -377,6 +391,8 @@ def lang_configs():
         ("pool-1", mk(scratch_int=[1003], scratch_float=[1006], unops=[])),
         ("no-scratch", mk(scratch_int=[], scratch_float=[])),
         ("aux-flags", mk(aux_flags=True)),
+        ("bitwise-native", mk(binops=["+", "-", "*", "/", "%", "|", "^", "&", "<<", ">>", ">>>"], unops=["-", "~", "!"], bit_exprs=True)),
+        ("bitwise-fallback-unops", mk(binops=["+", "-", "*", "/", "%", "|", "^", "&", "<<", ">>", ">>>"], unops=[], bit_exprs=True)),
         ("no-count-two-part", mk(count_jmp="none", cond_jmp="two", assign_ops=["=", "+=", "-="])),
     ]
 
@@ -388,6 +404,7 @@ def expr_programs(seed, n, cfg, start_id=1, use_ds=True, diff_labels=True):
         g = ExprGen(rng, max_depth=rng.choice([1, 1, 2]), allow_float=True, diff_labels=diff_labels and rng.random() < 0.3)
         g.use_ds = use_ds and rng.random() < 0.4
         g.cmp_values = bool(cfg.get("cmp_binops"))
+        g.bitops = [b for b in cfg.get("binops", []) if b in ("|", "^", "&", "<<", ">>", ">>>")] if cfg.get("bit_exprs") else []
         g.count_jmp = cfg.get("count_jmp") != "none"
         g.body_sizes = [1, 1, 2]
         g.top_sizes = [1, 2, 2, 3]
